@@ -1,4 +1,5 @@
 pub mod cards;
+pub mod deals;
 pub mod mrank;
 pub mod par;
 pub mod report;
